@@ -24,6 +24,7 @@ import Mathlib.Tactic.Positivity
 import Mfi.Lemmas.TagL
 import Mfi.Lemmas.AccrualL
 import Mfi.Lemmas.SolvL
+import Mfi.Lemmas.WorldSolvH
 
 namespace Mfi.Props.C01
 open Mfi Mfi.Fx Mfi.Bank Mfi.Interest Mfi.Gen Mfi.AccrualL
@@ -457,5 +458,123 @@ theorem deposits_arrive_in_every_epoch {m : Mfi.Token.Mint} {epoch post pre f : 
     (hm : ∀ c, m = .t22fee c → Mfi.Props.C03.FeeCfgOk c)
     (h : Mfi.Token.mintPre m epoch post = some pre) (hf : Mfi.Token.mintFee m epoch pre = some f) : post ≤ pre - f :=
   Mfi.Props.C03.mint_prefee_covers hp hm h hf
+
+/-! ### solvency over every history of WHOLE instructions (Mfi/Model/World.lean; lemmas in Mfi/Lemmas/WorldSolv*.lean)
+
+The single-bank history above speaks about wrapper operations with the vault movements given as arguments. Here the operations are
+the whole instructions of the world state machine — account checks interpreted from the regenerated table, gates, accrual, slot
+search, the bank-and-position core, fee booking, sunset cases, risk engine — on any number of accounts and banks, and the
+vault movement of each step is READ OFF the instruction's own outcome (`tokens`, `insuranceTokens`; the `world` family diffs
+both against the real token movements through real dispatch). -/
+
+section whole_instructions
+open Mfi.World
+
+/-- the ghost-instrumented step is the state machine's step: the ledgers ride along, they do not steer -/
+theorem world_ghost_step_is_the_step (w : WState) (op : WOp) : (w.stepE op).1 = w.step op := stepE_fst w op
+
+theorem world_ghost_run_is_the_run (w : WState) (g : Ghost) (ops : List WOp) : (w.runE g ops).1 = w.run ops := runE_fst ops w g
+
+/-- **world_instruction_keeps_solvency**: one whole instruction — deposit, withdraw (partial / complete / completed-deleverage
+    pay-out), borrow (with origination fee split between group and program), repay (partial / complete / token-less), balance
+    closure, bankruptcy settlement, classic liquidation, by any signer on any accounts and banks with any unsigned arguments,
+    accepted or refused — keeps the invariant and, for EVERY bank of the world,
+
+        vault·2^96 − (deposits − loans + uncollected fees) + allowance consumed + sanctioned write-offs
+
+    does not fall, where the vault moves by exactly the tokens the instruction's outcome announces (deposits and repayments
+    net of the mint's transfer fee; the insurance pay-in of a settlement; the whole-token insurance fee of a liquidation out),
+    the allowance grows by the accrual allowance (one ulp of rate on the debt, one ulp per debt share, the per-period lending
+    rate) plus asv + lsv + 1 per withdrawal / borrow / liquidation leg and 2^48 per complete repayment (all at 2^-96 token),
+    and the write-offs are the two sanctioned exceptions: the risk admin's token-less repayment on a sunset bank, and the bad
+    debt of a settlement that wipes the bank out (which then is killed). The debt share value of no bank falls. -/
+theorem world_instruction_keeps_solvency (w : WState) (g : Ghost) (op : WOp) (hi : SInv w) (hop : op.Ok) :
+    SInv (w.stepE op).1 ∧ ∀ (j : Nat) (x x' : WBank), w.banks[j]? = some x → (w.stepE op).1.banks[j]? = some x' →
+      pot g x ≤ pot (g.apply (w.stepE op).2) x' ∧ x.v.books.lsv ≤ x'.v.books.lsv :=
+  stepE_sound w g op hi hop
+
+/-- **world_solvency_history**: over EVERY history of whole instructions, every bank keeps its place and key, its potential at
+    the end is at least its potential at the start, and its debt share value has not fallen. -/
+theorem world_solvency_history (ops : List WOp) (w : WState) (g : Ghost) (hi : SInv w) (hok : ∀ op ∈ ops, op.Ok) :
+    SInv (w.runE g ops).1 ∧ ∀ (j : Nat) (x : WBank), w.banks[j]? = some x →
+      ∃ x', (w.runE g ops).1.banks[j]? = some x' ∧ x'.v.key = x.v.key ∧ pot g x ≤ pot (w.runE g ops).2 x' ∧
+        x.v.books.lsv ≤ x'.v.books.lsv :=
+  runE_sound ops w g hi hok
+
+/-- a bank that starts solvent stays solvent up to the allowance consumed and the sanctioned write-offs:
+    vault·2^96 − claims ≥ −(allowance + write-offs) at the end of every history -/
+theorem world_solvent_up_to_allowance (ops : List WOp) (w : WState) (g : Ghost) (hi : SInv w) (hok : ∀ op ∈ ops, op.Ok)
+    (j : Nat) (x : WBank) (hx : w.banks[j]? = some x) (h0 : 0 ≤ slack (g.vault x.v.key) x.v.books)
+    (hs : g.spent x.v.key = 0) (hw : g.written x.v.key = 0) :
+    ∃ x', (w.runE g ops).1.banks[j]? = some x' ∧
+      -((w.runE g ops).2.spent x'.v.key + (w.runE g ops).2.written x'.v.key) ≤ slack ((w.runE g ops).2.vault x'.v.key) x'.v.books := by
+  obtain ⟨x', hx', _, hp, _⟩ := (runE_sound ops w g hi hok).2 j x hx
+  refine ⟨x', hx', ?_⟩
+  unfold pot at hp
+  omega
+
+/-- every validated seven-point curve gives a non-negative base rate: the `BaseOk` premise of the invariant holds for every
+    configuration the program accepts (C18 `curve_defined_bounded`) -/
+theorem base_ok_of_validated (c : IrCalc) (hw : Mfi.Props.C18.WF c) (hct : c.curveType = 1) (hv : validateSevenPoint c = true) :
+    BaseOk c := by
+  intro ur r h
+  obtain ⟨_, _, _, _, hb, _⟩ := Mfi.Props.C18.calc_spec h
+  unfold baseRate at hb
+  have h0 : ¬ c.curveType = 0 := by omega
+  rw [if_neg h0, if_pos hct] at hb
+  obtain ⟨r', hr', hlo, _⟩ := Mfi.Props.C18.curve_defined_bounded c hw hv ur
+  rw [hb] at hr'
+  injection hr' with hr'
+  have hz : 0 ≤ rateFromU32 c.zeroRate := by
+    rw [Mfi.Props.C18.rateFromU32_eq hw.zero_nonneg]
+    have : 0 ≤ c.zeroRate * ONE / U32MAX := Int.ediv_nonneg (Int.mul_nonneg hw.zero_nonneg (le_of_lt ONE_pos)) (by decide)
+    omega
+  omega
+
+/-- an empty world of any number of accounts and of banks with distinct keys, fresh books (no shares, share values and fee
+    buckets in range) and an accepted configuration satisfies the invariant — and so does every world reached from it
+    (non-vacuity of the history theorem) -/
+theorem world_solvency_initial (now : Int) (g : GroupV) (banks : List WBank) (n : Nat)
+    (hk : ∀ (i j : Nat) (bi bj : WBank), banks[i]? = some bi → banks[j]? = some bj → i ≠ j → bi.v.key ≠ bj.v.key)
+    (h0 : ∀ b ∈ banks, b.v.books.sa = 0 ∧ b.v.books.sl = 0)
+    (hb : ∀ b ∈ banks, SvFee b.v.books ∧ CfgOk b.v g.progFeeRate ∧ (b.v.opState ≠ 3 → 0 < b.v.books.asv))
+    (group authority : Nat) :
+    SInv { now, g, banks, dustA := fun _ => 0, dustL := fun _ => 0,
+           accts := List.replicate n { key := 0, group, authority, flags := 0, slots := List.replicate 16 Account.emptySlot } } := by
+  refine ⟨Mfi.Props.C02.world_ledger_initial now g banks n hk h0 group authority, ?_, fun _ => ⟨Int.le_refl _, Int.le_refl _⟩, ?_⟩
+  · intro i a ha
+    have hm := List.mem_of_getElem? ha
+    rw [List.mem_replicate] at hm
+    rw [hm.2]
+    intro s hs
+    rw [List.mem_replicate] at hs
+    rw [hs.2]
+    exact ⟨Int.le_refl _, Int.le_refl _⟩
+  · intro j b hj
+    exact hb b (List.mem_of_getElem? hj)
+
+def demoIr : IrCalc :=
+  { optimal := 0, plateau := 0, maxIr := 0, insFixed := 0, insRate := 0, grpFixed := 0, grpRate := 0,
+    progFixed := 0, progRate := 0, addProgramFees := false, zeroRate := 100, hundredRate := 1000,
+    points := List.replicate 5 ⟨0, 0⟩, curveType := 1 }
+
+def demoBooks : Bank :=
+  { asv := ONE, lsv := ONE, sa := 0, sl := 0, feeI := 0, feeG := 0, feeP := 0, depositLimit := U64MAX,
+    borrowLimit := U64MAX, flags := 0, assetTag := 0, mintDecimals := 6, emissionsRate := 0, emissionsRemaining := 0,
+    lendCnt := 0, borrowCnt := 0, lastUpdate := 0, cacheAccum := 0, cacheFor := 0 }
+
+def demoBankV : BankV :=
+  { key := 1, group := 1, liquidityVault := 2, books := demoBooks, ir := demoIr, opState := 1, origFee := 0, tfBps := 0, tfMax := 0,
+    weightInitZero := false }
+
+/-- the premises on a bank are satisfiable: fresh books at share value 1 with a flat validated seven-point curve, no
+    transfer fee, no origination fee -/
+example : SvFee demoBankV.books ∧ CfgOk demoBankV 0 ∧ (demoBankV.opState ≠ 3 → 0 < demoBankV.books.asv) ∧
+    demoBankV.books.sa = 0 ∧ demoBankV.books.sl = 0 := by
+  refine ⟨⟨by decide, by decide, by decide, by decide, by decide⟩, ?_, fun _ => by decide, rfl, rfl⟩
+  refine ⟨⟨by decide, by decide, by decide, by decide, by decide, by decide⟩, ?_, ⟨by decide, by decide, by decide⟩, by decide, ⟨by decide, by decide⟩⟩
+  exact base_ok_of_validated demoIr ⟨by decide, by decide, by decide⟩ rfl (by decide)
+
+end whole_instructions
 
 end Mfi.Props.C01
